@@ -273,6 +273,7 @@ type Obligation struct {
 type Result struct {
 	Ob      *Obligation
 	Status  string // unsat, sat, unknown, timeout, error
+	Errors  []string
 	Solver  string
 	Seconds float64
 	Output  string
@@ -373,6 +374,16 @@ func runSolver(sp solverSpec, query string, timeoutS int, tag string) (status, o
 	_ = cmd.Run()
 	secs = time.Since(t0).Seconds()
 	out = buf.String()
+	if strings.Contains(out, "WARNING") {
+		// solver warnings (e.g. a pattern that cannot be used after macro expansion) are not answers
+		var kept []string
+		for _, l := range strings.Split(out, "\n") {
+			if !strings.HasPrefix(strings.TrimSpace(l), "WARNING") {
+				kept = append(kept, l)
+			}
+		}
+		out = strings.Join(kept, "\n")
+	}
 	first := strings.TrimSpace(strings.SplitN(out, "\n", 2)[0])
 	switch first {
 	case "unsat", "sat", "unknown":
@@ -429,8 +440,11 @@ func Solve(o *Obligation, timeoutS int, confirm bool) *Result {
 			}
 			break
 		}
-		if st == "error" && r.Output == "" {
-			r.Output = out
+		if st == "error" {
+			r.Errors = append(r.Errors, sp.name+": "+strings.TrimSpace(firstLines(out, 3)))
+			if r.Output == "" {
+				r.Output = out
+			}
 		}
 		if (st == "unknown") && r.Model == nil {
 			// candidate model (may be spurious); kept for replay attempts
@@ -574,4 +588,12 @@ func SolveAll(obs []*Obligation, timeoutS int, confirm bool, workers int) []*Res
 	}
 	wg.Wait()
 	return res
+}
+
+func firstLines(s string, n int) string {
+	ls := strings.SplitN(s, "\n", n+1)
+	if len(ls) > n {
+		ls = ls[:n]
+	}
+	return strings.Join(ls, " | ")
 }
